@@ -56,6 +56,10 @@ extern int mpt_value_convert(const MPT_STRUCT(value) *val, MPT_TYPE(type) type, 
 		if (traits->init || traits->fini) {
 			return MPT_ERROR(BadValue);
 		}
+		/* value without data, same verdict with and without target */
+		if (!src) {
+			return MPT_ERROR(MissingData);
+		}
 		if (dest) {
 			memcpy(dest, src, traits->size);
 		}
